@@ -24,6 +24,16 @@ Theorem C02_leaf_group : forall rest kept, grp_src kept rest = grp kept rest.
 Proof. exact grp_agree. Qed.
 Print Assumptions C02_leaf_group.
 
+(* the direction of the edge one comparison adds to sort_types' dependency graph, and the level TypeMap.__missing__ gives
+   to a round (counted from the most general end of the rounds, i.e. from the last one yielded) *)
+Theorem C02_leaf_edge : forall o, edge_src o = edge_dir o.
+Proof. exact edge_agree. Qed.
+Print Assumptions C02_leaf_edge.
+
+Theorem C02_leaf_level : forall nr r, level_index_src nr r = level_index nr r.
+Proof. exact level_agree. Qed.
+Print Assumptions C02_leaf_level.
+
 Theorem C02_leaf_arity : forall m nargs names, arity_ok_src m nargs names = arity_ok m nargs names.
 Proof. exact arity_agree. Qed.
 Print Assumptions C02_leaf_arity.
